@@ -12,6 +12,18 @@ import os as _os
 import random
 
 
+# Pre-emption point of the simulated scheduler: called (with a tag) every time
+# the reader is about to enumerate a directory or open a data file.  The C18
+# engine uses it to let the simulated Einstein Toolkit writer run *inside* a
+# catalogue call, not only between calls.
+PREEMPT = [None]
+
+
+def preempt(tag):
+    if PREEMPT[0] is not None:
+        PREEMPT[0](tag)
+
+
 class _Order:
     def __init__(self, mode, seed):
         self.mode = mode
@@ -41,6 +53,7 @@ class _GlobProxy:
         self._o = order
 
     def glob(self, pattern, *a, **k):
+        preempt('glob:' + pattern)
         return self._o.apply(_glob.glob(pattern, *a, **k), 'glob:' + pattern)
 
     def __getattr__(self, name):
@@ -52,6 +65,7 @@ class _OsProxy:
         self._o = order
 
     def listdir(self, path='.'):
+        preempt('listdir:' + str(path))
         return self._o.apply(_os.listdir(path), 'listdir:' + str(path))
 
     def __getattr__(self, name):
